@@ -437,6 +437,33 @@ def step (d : D) (line : String) : D × String :=
             | none => "ok"
         ({ d with sys := s3 }, s!"{res} alive {canonState s3}\t{impl}\t{v}")
     | _, _, _ => (d, "bad-op\tbad-op\tbad-op")
+  | ["suspend", _, _, n1f, n2f] =>
+    -- Suspend + Resume with the input goroutine blocked on a full queue; the queue is drained only afterwards.
+    -- Oracle (no model prediction needed): keys typed after Resume come out exactly once and in order; keys typed
+    -- before Suspend at most once and in order (Suspend may discard what was not yet delivered); the loop is alive.
+    match (n1f.drop 3).toString.toNat?, (n2f.drop 3).toString.toNat? with
+    | some n1, some n2 =>
+      if impl == "not-forced" then (d, "-\t-\t-")
+      else
+        let parts := impl.splitOn " keys="
+        let head := parts.headD ""
+        let codes : List Nat := ((parts.getD 1 "").splitOn ",").filterMap (·.toNat?)
+        let first := codes.filter (fun c => 0xE100 ≤ c && c < 0xE200)
+        let second := codes.filter (fun c => 0xE200 ≤ c && c < 0xE300)
+        let wantSecond := (List.range n2).map (· + 0xE200)
+        let rec increasing : List Nat → Bool
+          | a :: b :: t => a < b && increasing (b :: t)
+          | _ => true
+        let v :=
+          if head.startsWith "hang" then s!"FAIL Suspend/Resume did not return with the input goroutine blocked on a full queue: {head}"
+          else if head != "forced" then s!"FAIL after Suspend and Resume the input loop no longer delivers input (sentinel not delivered): {head}"
+          else if second != wantSecond then
+            s!"FAIL the {n2} keys typed after Resume must be delivered exactly once and in order; got {second.map (· - 0xE200)} (user input lost, duplicated or reordered)"
+          else if !(increasing first) || first.any (fun c => c ≥ 0xE100 + n1) then
+            s!"FAIL keys typed before Suspend were delivered out of order or twice: {first.map (· - 0xE100)}"
+          else "ok"
+        (d, s!"forced second={n2}\t{head} second={if second == wantSecond then toString n2 else "differs"}\t{v}")
+    | _, _ => (d, "bad-op\tbad-op\tbad-op")
   | ["raceyield", _] =>
     (d, "reached\tnever-reached\tFAIL no cursor-position schedule could be forced: the yield point verifC03 in handleSequence was never reached")
   | "race" :: ord :: r :: c :: r2 :: c2 :: seqf =>
